@@ -1,5 +1,29 @@
 package main
 
+import (
+	"regexp"
+	"strconv"
+)
+
+var mirrorZipBig = regexp.MustCompile(`:z([0-9]+)`)
+
+// mirrorZipSmall: the regenerated code works on immutable lists; ops with multi-megabyte contents (`z<N>` tokens) or
+// with paths of tens of thousands of bytes take seconds each there, so only the hand model runs them.
+func mirrorZipSmall(line string) bool {
+	if len(line) > 20000 {
+		return false
+	}
+	for _, m := range mirrorZipBig.FindAllStringSubmatch(line, -1) {
+		if n, err := strconv.Atoi(m[1]); err != nil || n > 200000 {
+			return false
+		}
+	}
+	return true
+}
+
 func init() {
 	mirror("zip.strtofold", "zip.isvendoredpackage", "zip.checkfiles", "zip.create", "zip.checkzip", "zip.unzip", "zip.checkdir", "zip.createfromdir")
+	for _, op := range []string{"zip.create", "zip.checkzip", "zip.unzip", "zip.checkdir", "zip.createfromdir"} {
+		mirrorFilter[op] = mirrorZipSmall
+	}
 }
